@@ -123,7 +123,7 @@ Lemma write_under_lock_script_all :
   forall outer, In outer script_outers -> forall c, write_under_lock_script outer c = true.
 Proof.
   intros outer Ho. apply (lift_dispatch dispatch_script).
-  - cbn in Ho. repeat (destruct Ho as [<-|Ho]; [vm_compute; reflexivity|]). destruct Ho.
+  - cbn in Ho. destruct Ho as [<-|[<-|[<-|[<-|[<-|[<-|[]]]]]]]; vm_compute; reflexivity.
   - intros c He _. unfold write_under_lock_script, changes_script. rewrite He. reflexivity.
 Qed.
 
@@ -169,7 +169,7 @@ Lemma read_under_lock_script_all :
   forall outer, In outer script_outers -> forall c, read_under_lock_script outer c = true.
 Proof.
   intros outer Ho. apply (lift_dispatch dispatch_script).
-  - cbn in Ho. repeat (destruct Ho as [<-|Ho]; [vm_compute; reflexivity|]). destruct Ho.
+  - cbn in Ho. destruct Ho as [<-|[<-|[<-|[<-|[<-|[<-|[]]]]]]]; vm_compute; reflexivity.
   - intros c He _. unfold read_under_lock_script, reads_objects_script. rewrite He. reflexivity.
 Qed.
 
